@@ -22,10 +22,9 @@
  Guards: one changed field of one recorded line / one behaviour step must be rejected exactly there (every run); a call that does not return
  within 20 s stops the harness (exit 68, confirmed by a second run); sanitizer reports are violations.
  Known findings (known_findings.json): QswapStale is open (directed case; recognised and undone by its exact predicate); F16realloc,
- QshrinkOverflow, QaddHeadSelf, QaddHeadStartSign, QextraOverflow were found here and are repaired in /repo: their inputs are generated and
+ QshrinkOverflow, QaddHeadSelf, QaddHeadStartSign, QextraOverflow, QextraIgnored were found here and are repaired in /repo: their inputs are generated and
  judged normally, their directed cases are ordinary judged cases (a reproduction is a VIOLATION).
- Reported, not generated: EnsureSize(n, true, extraReallocItems >= 2^32 - n, ...) - the header says the argument "is ignored if (setNumItems) is
- true"; the code returns B_RESOURCE_LIMIT when it would reallocate, and with n below the item count it has truncated the Queue before it fails.
+
 """
 import concurrent.futures as cf, json, os, random, re, collections
 import vlib, pathcover
@@ -44,6 +43,7 @@ KNOWN_TEXT = {
     "QshrinkOverflow": "EnsureSize(numSlots, false, extra, allowShrink = true) with numSlots + extra smaller than the number of items writes all items into the smaller new array (heap-buffer-overflow reported by ASan)",
     "QaddHeadStartSign": "q.AddHeadMulti(queue, startIndex = 0x80000000, n) reads queue[0x7FFFFFFF] (MASSERT 'Invalid index', abort; out of bounds without assertions) instead of adding nothing: the int32 loop counter starts at INT32_MAX for exactly this startIndex",
     "QextraOverflow": "EnsureSize(numSlots, false, extraReallocItems) adds numSlots + extraReallocItems in 32 bits: EnsureSize(20, false, 0xFFFFFFF0) on 8 items allocates 4 slots and copies 8 items into them (heap-buffer-overflow reported by ASan)",
+    "QextraIgnored": "EnsureSize(n, true, extraReallocItems, ...) does not ignore extraReallocItems as documented: with n + extra beyond 32 bits it returns B_RESOURCE_LIMIT, and with n below the item count it has truncated the Queue before it fails",
     "QaddHeadSelf": "q.AddHeadMulti(q) (also q.InsertItemsAt(0, q)) with two or more items and enough spare slots prepends the wrong items: the indices it reads from move with every item it prepends",
 }
 
@@ -258,7 +258,7 @@ def run(v, tier, seed):
     else: shards, runs, nops = int(os.environ.get("C16_SHARDS", "64")), 600, 400
     with cf.ThreadPoolExecutor(max_workers=7) as ex:
         f_gen = ex.submit(gen_and_replay)
-        f_dir = [ex.submit(directed, c) for c in ("swapstale", "shrinkoverflow", "addheadself", "ensuresizerealloc", "addheadstart", "extraoverflow")]
+        f_dir = [ex.submit(directed, c) for c in ("swapstale", "shrinkoverflow", "addheadself", "ensuresizerealloc", "addheadstart", "extraoverflow", "extraignored")]
         f_rnd = [ex.submit(random_and_validate, t, s, runs, nops) for s in range(shards) for t in TYPES]
         # quick: four of the twelve wrong definitions; thorough: all
         f_reach = [ex.submit(reach, w, l) for w, l in sorted(WRONG.items()) if (not quick) or w in ("failchanges", "stale", "addhead", "indexofend")]
@@ -271,7 +271,7 @@ def run(v, tier, seed):
         # known findings: directed cases
         for f in f_dir:
             case, rc, se, row = f.result()
-            fid = {"swapstale": "QswapStale", "shrinkoverflow": "QshrinkOverflow", "addheadself": "QaddHeadSelf", "ensuresizerealloc": "F16realloc", "addheadstart": "QaddHeadStartSign", "extraoverflow": "QextraOverflow"}[case]
+            fid = {"swapstale": "QswapStale", "shrinkoverflow": "QshrinkOverflow", "addheadself": "QaddHeadSelf", "ensuresizerealloc": "F16realloc", "addheadstart": "QaddHeadStartSign", "extraoverflow": "QextraOverflow", "extraignored": "QextraIgnored"}[case]
             crashed = _stopped(rc)
             if rc != 0 and not crashed: raise vlib.MachineryError("qu directed %s failed rc=%s: %s" % (case, rc, se[-1500:]))
             reproduced = crashed or (row is not None and row.get("reproduced"))
@@ -360,8 +360,8 @@ def run(v, tier, seed):
                    "out-of-memory and B_RESOURCE_LIMIT results are not provoked (sizes stay far below MUSCLE_NO_LIMIT; 99 in the specification stands for it)",
                    "documented preconditions are respected by the generators (valid indices for Swap and operator[], sorted contents for InsertItemAtSortedPosition / RemoveSortedDuplicateItems, FastClear only for trivially copyable items); where the header is silent nothing is required: InsertItemsAt beyond the end accepts either reading, the contents of a moved-from Queue (move constructor / move assignment; Plunder is documented) are not judged, AdoptRawDataArray is given default items beyond validItemCount",
                    "an argument that aliases the Queue itself (q.AddTail(q[i]), q.InsertItemAt(i, q[j]), q.AddTailMulti(q), an array inside q's own storage) means 'a copy taken before the call' - the reading the code's own re-entrancy guards implement",
-                   "the open finding QswapStale (known_findings.json) is recognised by its exact predicate (item type without move operations, history, Queue back in its inline buffer): the slots it left behind are counted and reset, everything else is judged normally; F16realloc, QshrinkOverflow, QaddHeadSelf, QaddHeadStartSign, QextraOverflow are repaired in /repo: their inputs are generated and judged like any other, their directed cases are ordinary cases",
-                   "argument-type boundary values (0x7FFFFFFF, 0x80000000, 0xFFFFFFFE, 0xFFFFFFFF, INT32_MIN/MAX strides) are generated for every index / count / slot parameter except extraReallocItems together with setNumItems = true (documented as ignored, not ignored by the code: reported)",
+                   "the open finding QswapStale (known_findings.json) is recognised by its exact predicate (item type without move operations, history, Queue back in its inline buffer): the slots it left behind are counted and reset, everything else is judged normally; F16realloc, QshrinkOverflow, QaddHeadSelf, QaddHeadStartSign, QextraOverflow, QextraIgnored are repaired in /repo: their inputs are generated and judged like any other, their directed cases are ordinary cases",
+                   "argument-type boundary values (0x7FFFFFFF, 0x80000000, 0xFFFFFFFE, 0xFFFFFFFF, INT32_MIN/MAX strides) are generated for every index / count / slot parameter (extraReallocItems with setNumItems = true is modelled as documented: ignored)",
                    "memory safety is judged by ASan+UBSan (asan build variant); trivially copyable items outside the window are not required to be default items (the library does not clear them by design)"]
     return "model_checking", cov, assumptions
 
